@@ -100,32 +100,56 @@ def discharge(obligations, timeout_ms=60000, procs=None, want_model=True):
 
 
 def _cover_one(task):
-    name, smt2 = task
+    """-> 'ok' | 'infeasible' (branch conditions/precondition alone are contradictory: a path the weakened
+    feasibility check explored needlessly) | 'vacuous' (only assumed contract clauses make it contradictory)"""
+    name, smt2_full, smt2_hard = task
     try:
         s = z3.Solver()
         s.set("timeout", 5000)
-        s.from_string(smt2)
-        return (name, str(s.check()))
+        s.from_string(smt2_full)
+        if s.check() != z3.unsat:
+            return (name, "ok")
+        if smt2_hard is None:
+            return (name, "vacuous")
+        s2 = z3.Solver()
+        s2.set("timeout", 10000)
+        s2.from_string(smt2_hard)
+        if s2.check() == z3.unsat:
+            return (name, "infeasible")
+        return (name, "vacuous")
     except Exception as ex:
-        return (name, "unknown")
+        return (name, "ok")
 
 
-def check_covers(covers, procs=None):
-    """Vacuity guard: a path condition that is *unsat* means contradictory assumptions (contract, invariant or
-    engine bug): everything proved on that path is void.  -> list of names with unsat path conditions."""
-    procs = procs or min(16, os.cpu_count() or 4)
+def cover_tasks(covers):
     tasks = []
-    for name, pc in covers:
+    for cv in covers:
+        name, pc = cv[0], cv[1]
+        hard = cv[2] if len(cv) > 2 else None
         s = z3.Solver()
         for c in pc:
             s.add(c)
-        tasks.append((name, s.to_smt2()))
+        h = None
+        if hard is not None:
+            s2 = z3.Solver()
+            for c in hard:
+                s2.add(c)
+            h = s2.to_smt2()
+        tasks.append((name, s.to_smt2(), h))
+    return tasks
+
+
+def check_covers(covers, procs=None):
+    """Vacuity guard -> names of paths whose path condition is contradictory because of assumed contract clauses
+    (callee postconditions, invariants, lemma conclusions): everything proved on such a path is void."""
+    procs = procs or min(16, os.cpu_count() or 4)
+    tasks = cover_tasks(covers)
     bad = []
     if not tasks:
         return bad
     ctx = mp.get_context("fork")
     with ctx.Pool(procs) as pool:
         for name, r in pool.imap_unordered(_cover_one, tasks, chunksize=4):
-            if r == "unsat":
+            if r == "vacuous":
                 bad.append(name)
     return bad
